@@ -110,7 +110,7 @@ func verifC04BuildBodies() (out []string) {
 }
 
 func verifC04Gen(r *verifC04Rng, thorough bool) (cases []verifC04Case) {
-	nRand := 200
+	nRand := 100
 	if thorough {
 		nRand = 4000
 	}
